@@ -152,7 +152,7 @@ def run_C15(ctx, rep):
         rep.viol('W', 'corpus family ' + m, 'well-formed-rejected',
                  'well-formed programs of the corpus no longer compile: ' + (ctx.meta.get('corpus_first_error', {}).get(m) or 'see stderr'))
     n = witness_rules.run_witnesses(ctx, rep, ctx.tier)
-    rep.floor('W', 150 if ctx.tier == 'quick' else 720, 'compile witnesses')
+    rep.floor('W', 165 if ctx.tier == 'quick' else 790, 'compile witnesses')
     return {'cov': {'exhaustive': True, 'witness_tier': ctx.tier}}
 
 
@@ -176,7 +176,7 @@ def run_C07(ctx, rep):
 def run_C08(ctx, rep):
     gen_driver.run_twins(ctx, rep, lambda n, k: n.replace('_par', '') in ('t_mac_sugar', 't_macn_sugar', 't_mach_sugar', 't_macd_sugar', 't_maca_sugar'), floors={'T.L': 10})
     gen_driver.run_tv(ctx, rep, only_tags=['twin'], floors={'R1': 40})
-    witness_rules.run_witnesses(ctx, rep, ctx.tier, kinds=('macro_self_rec', 'macro_mutual_rec', 'macro_head_rec'))
+    witness_rules.run_witnesses(ctx, rep, ctx.tier, kinds=('macro_self_rec', 'macro_mutual_rec', 'macro_head_rec', 'macro_rec3', 'macro_rec_in_disj', 'macro_double_rec_head', 'macro_double_rec_disj', 'macro_double_rec_body'))
     macro_rules.check_M2(ctx, rep)
     macro_rules.check_M3(ctx, rep)
     macro_rules.check_M4(ctx, rep)
